@@ -4,7 +4,7 @@
    The grouping statement over whole feeds ("exactly one output alert per group, informed stops = the distinct ids of the
    members") is decided on the real results by the engine's specification oracle; proved here: the step that keeps the
    informed stops duplicate-free and order-insensitive as a set, the skip rule, the effect rule, the id matcher on examples. *)
-From GV Require Import Base.Prelude Model.RtTypes Model.RtWire Model.Realtime Proofs.RealtimeProofs Gen.NyctTables.
+From GV Require Import Base.Prelude Model.RtTypes Model.RtWire Model.Realtime Proofs.RealtimeProofs Gen.NyctTables Proofs.ElevatorProofs.
 
 (* adding a member's platform / station id through the duplicate check: no duplicates, and the set grows by exactly that id *)
 Theorem C17_add_stop : forall s l, NoDup (stops_of l) ->
@@ -32,3 +32,24 @@ Theorem C17_elevator_ids : elev_match (la "A27N#EL123") = Some ("A27", "N", "123
   elev_match (la "lmm:alert:77") = None /\ elev_match (la "XA27S#EL9") = Some ("A27", "S", "9").
 Proof. exact elevator_ids. Qed.
 Print Assumptions C17_elevator_ids.
+
+(* ---- the grouping clause, for EVERY message, every policy and flag setting: each elevator group - the entities whose ids map
+   to the same new id under the policy - ends up as exactly one non-skipped entity (the first member in feed order) carrying
+   the group's id, cause MAINTENANCE, effect ACCESSIBILITY_ISSUE and one stop selector per DISTINCT informed id of the members;
+   every other member is skipped ---- *)
+Theorem C17_elevator_groups : forall policy station_ids skip_opt add_meta m g,
+  let cfg := NyctAlerts policy station_ids skip_opt add_meta in
+  let p := pre_pass cfg m in
+  let members := ids policy station_ids (fm_entities m) g (List.length (fm_entities m)) in
+  members <> [] ->
+  exists j a', nth_error (pr_entities p) j = Some (mk_entity g a') /\ nth j (pr_skip p) false = false /\
+    wa_cause a' = Some Alert_MAINTENANCE /\ wa_effect a' = Some Alert_ACCESSIBILITY_ISSUE /\
+    wa_informed a' = map stop_selector (dedup members) /\
+    forall i e s a, nth_error (fm_entities m) i = Some e -> elev_info policy station_ids e = Some (g, s, a) -> i <> j -> nth i (pr_skip p) false = true.
+Proof. exact elevator_groups. Qed.
+Print Assumptions C17_elevator_groups.
+(* "exactly the distinct ids, independent of the order of the members": the informed stops are a duplicate-free list with the
+   same elements as the members' ids *)
+Theorem C17_distinct_ids : forall l, NoDup (dedup l) /\ forall y, In y (dedup l) <-> In y l.
+Proof. exact dedup_spec. Qed.
+Print Assumptions C17_distinct_ids.
